@@ -14,11 +14,13 @@ func TestProp(t *testing.T) {
 			"result rows have the column types and row order the generated SQL guarantees (see C15); sizes up to 5000 rows",
 			"a response must arrive within 45 s (>= 1000 x the normal latency); goroutines with a qryn frame and open result sets must be gone within 4 s after the request ended; dbVersion's 10 s cache-reset sleeper is ignored; a leak is reported only when it shows again on an immediate second run of the same case",
 			"midfail: the main statement of streams / matrix / vector / Prometheus / trace routes (SQL path and in-process pipelines) fails at row k, k in {0,1,99,100,101,150,250,1000}, as a driver error, a row the scanner cannot scan (NULL cell) or an unparsable log line",
+			"tail: websocket tail histories (healthy / NULL-cell / QueryCtx-error / driver-error / slow polls, a client that stops reading and later drops the connection); a handful of cases per run because the poll interval is fixed at 1 s",
 			"disconnect: every streaming read route with result sets of hundreds to tens of thousands of rows; the consumer goes away after k body bytes (tcp reset with minimal socket buffers, or a ResponseWriter that starts failing, or a dropped websocket on the tail route); non-trivial there: the producer was still active when the consumer went away",
 		},
 	})
 	addReq(r)
 	addDisc(r)
 	addMid(r)
+	addTail(r)
 	r.Main()
 }
